@@ -142,6 +142,9 @@ theorem param2ast_typed (p : Param) (t : Str) (ht : p.typ = some t) :
              then .ok ⟨t, .const .none⟩
              else .ok ⟨t, .const (.str s)⟩)
           else if numericText s then .unmodelled "a str default that reads as a number under a generic type"
+          else if s == sNone then .ok ⟨t, .const .none⟩
+          else if s == ['T', 'r', 'u', 'e'] then .ok ⟨t, .const (.bool true)⟩
+          else if s == ['F', 'a', 'l', 's', 'e'] then .ok ⟨t, .const (.bool false)⟩
           else if identText s then .ok ⟨t, .expr s⟩
           else .unmodelled "a str default parsed as an expression under a generic type"
         | some v => .ok ⟨t, .const (setValue v)⟩
@@ -269,6 +272,9 @@ theorem attrRT_nonscalar_nodefault (p : Param) (t : Str) (q : Bool) (ht : p.typ 
              then .ok ⟨t, .const .none⟩
              else .ok ⟨t, .const (.str s)⟩)
           else if numericText s then .unmodelled "a str default that reads as a number under a generic type"
+          else if s == sNone then .ok ⟨t, .const .none⟩
+          else if s == ['T', 'r', 'u', 'e'] then .ok ⟨t, .const (.bool true)⟩
+          else if s == ['F', 'a', 'l', 's', 'e'] then .ok ⟨t, .const (.bool false)⟩
           else if identText s then .ok ⟨t, .expr s⟩
           else .unmodelled "a str default parsed as an expression under a generic type"
         | some v => .ok ⟨t, .const (setValue v)⟩
@@ -309,6 +315,9 @@ theorem attrRT_generic_literal (p : Param) (t : Str) (v : Val) (ht : p.typ = som
            then (Res.ok ⟨t, .const .none⟩ : Res Attr)
            else .ok ⟨t, .const (.str s)⟩)
         else if numericText s then .unmodelled "a str default that reads as a number under a generic type"
+        else if s == sNone then .ok ⟨t, .const .none⟩
+        else if s == ['T', 'r', 'u', 'e'] then .ok ⟨t, .const (.bool true)⟩
+        else if s == ['F', 'a', 'l', 's', 'e'] then .ok ⟨t, .const (.bool false)⟩
         else if identText s then .ok ⟨t, .expr s⟩
         else .unmodelled "a str default parsed as an expression under a generic type"
       | some v => .ok ⟨t, .const (setValue v)⟩
